@@ -37,7 +37,7 @@ def _params_src(sc, lits) -> str:
 
 
 def concretise(scs, lits) -> str:
-    out = ["from typing import Optional", ""]
+    out = ["from dataclasses import dataclass", "from typing import Optional", ""]
     for sc in scs:
         i, ck = sc["id"], sc["ck"]
         ps = _params_src(sc, lits)
@@ -50,6 +50,12 @@ def concretise(scs, lits) -> str:
                 doc += [f"    {p['name']} : {ANN_BY_T[lit['t']] if lit else 'int'}", f"        The {p['name']}."]
             doc.append('    """')
             out += [f"def f{i}({ps}):", *doc, "    ...", ""]
+        elif ck == "dataclass":
+            fields = []
+            for p in sc["params"]:
+                lit = lits[p["lit"] - 1] if p["lit"] else None
+                fields.append(f"    {p['name']}: {ANN_BY_T[lit['t']] if lit else 'int'}" + (f" = {lit_src(lit['src'])}" if lit else ""))
+            out += ["@dataclass", f"class K{i}:", *fields, ""]
         elif ck == "refunction":
             first = sc["params"][0]["name"] if sc["params"] and sc["params"][0]["kind"] in ("pos", "posonly") else "p1"
             out += [f"def f{i}({first}=7, zold=8): ...", "", f"def f{i}({ps}): ...", ""]
@@ -78,7 +84,7 @@ def observe(sc, stubs: Stubs, idx) -> dict:
         if len(tops) != 1:
             return none
         cls = tops[0][1]
-        if ck in ("ctor", "starctor"):
+        if ck in ("ctor", "starctor", "dataclass"):
             decl = cls
             fid = f"{PKG}/{MOD}/K{i}/__init__"
         else:
